@@ -204,7 +204,7 @@ fn fill_thread_stack(
             if let Some(principal_mapping) = &config.principal_mapping {
                 let low_addr = principal_mapping.system_mapping_info.start_address;
                 let high_addr = principal_mapping.system_mapping_info.end_address;
-                if (instruction_ptr < low_addr || instruction_ptr > high_addr)
+                if (instruction_ptr < low_addr || instruction_ptr >= high_addr)
                     && !principal_mapping
                         .stack_has_pointer_to_mapping(&stack_bytes, stack_pointer_offset)
                 {
